@@ -137,6 +137,8 @@ func (c URLCfg) Features(a *refmodel.Asset) map[string]string {
 		f["ato"] = "0"
 	case c.Ato == "inf":
 		f["ato"] = "inf"
+	case strings.HasPrefix(c.Ato, "-"):
+		f["ato"] = "negative"
 	default:
 		f["ato"] = "finite"
 	}
